@@ -507,7 +507,7 @@ Section RA_Group.
   Definition RA_ginv (g : list (K * list V)) : Prop :=
     Forall (fun kv => snd kv <> [] /\ Forall (fun v => keqb (key v) (fst kv) = true) (snd kv)) g.
 
-  Lemma RA_group_insert_perm k v g :
+  Lemma RA_group_insert_perm (k : K) (v : V) g :
     Permutation (flat_map snd (group_insert keqb k v g)) (flat_map snd g ++ [v]).
   Proof.
     induction g as [|[k' vs] g IH]; simpl.
@@ -577,3 +577,373 @@ Qed.
 Lemma RA_flat_map_vars_map (f : expr R -> expr R) us :
   (forall u, vars (f u) = vars u) -> flat_map vars (map f us) = flat_map vars us.
 Proof. intro H. induction us as [|a us IH]; simpl; [reflexivity|]. rewrite H, IH. reflexivity. Qed.
+
+(** ** Consolidating n-th powers *)
+Lemma RA_group_shape_NthPow k (vs : list (expr R)) :
+  Forall (fun v => is_NthPow v = true /\ Pos.eqb (pos_of_nth v) k = true) vs ->
+  vs = map (fun u => NthPow u k) (map inner_of vs).
+Proof.
+  induction 1 as [|v vs [H1 H2] _ IH]; [reflexivity|]. simpl. rewrite <- IH.
+  destruct v; try discriminate. simpl in *. apply Pos.eqb_eq in H2. subst. reflexivity.
+Qed.
+
+Lemma RA_prod_pows rho n (us : list (expr R)) :
+  RA_prodR (map (denote rho) (map (fun u => NthPow u n) us)) =
+  RA_prodR (map (denote rho) us) ^ Pos.to_nat n.
+Proof.
+  induction us as [|a us IH]; cbn [map RA_prodR fold_right denote].
+  - symmetry. apply pow1.
+  - rewrite Rpow_mult_distr. unfold RA_prodR in IH. rewrite IH. reflexivity.
+Qed.
+
+Lemma RA_nary_nthpows n (us : list (expr R)) :
+  refines (RA_nary false (map (fun u => NthPow u n) us)) (RA_nary false [NthPow (Mul us) n]).
+Proof.
+  apply RA_refines_nary. intro Hw. apply (proj1 (Forall_map _ _ _)) in Hw.
+  split; [|split].
+  - constructor; [|constructor]. change (wfR (Mul us)). apply RA_wf_Mul. exact Hw.
+  - simpl. rewrite app_nil_r. rewrite RA_flat_map_vars_map by reflexivity. apply incl_refl.
+  - intros rho Hd. apply (proj1 (Forall_map _ _ _)) in Hd. split.
+    + constructor; [|constructor]. change (InDomain rho (Mul us)). apply RA_dom_Mul. exact Hd.
+    + unfold RA_opR. rewrite RA_prod_pows. cbn [map RA_prodR fold_right].
+      change (denote rho (NthPow (Mul us) n)) with (denote rho (Mul us) ^ Pos.to_nat n).
+      rewrite RA_den_Mul. ring.
+Qed.
+
+Lemma reduce_product_by_consolidating_nth_powers_sound :
+  forall e e' : expr R, reduce_product_by_consolidating_nth_powers e = Some e' -> refines e e'.
+Proof.
+  intros e e' H. destruct e; try discriminate.
+  unfold reduce_product_by_consolidating_nth_powers, partition_by in H.
+  match type of H with (if ?c then _ else _) = _ => destruct c end; [discriminate|].
+  match type of H with (if ?c then _ else _) = _ => destruct c end; [discriminate|].
+  inversion H; subst; clear H.
+  apply (RA_consolidate false is_NthPow Pos.eqb pos_of_nth (fun us k => NthPow (Mul us) k) l).
+  - apply Pos.eqb_refl.
+  - intros k vs _ Hvs. rewrite (RA_group_shape_NthPow k vs Hvs) at 1. apply RA_nary_nthpows.
+Qed.
+
+(** ** Consolidating exponentials *)
+Lemma RA_group_shape_Exp k (vs : list (expr R)) :
+  Forall (fun v => is_Exp v = true /\ Reqb (base_of RInst v) k = true) vs ->
+  vs = map (fun u => Exp u k) (map inner_of vs).
+Proof.
+  induction 1 as [|v vs [H1 H2] _ IH]; [reflexivity|]. simpl. rewrite <- IH.
+  destruct v; try discriminate. simpl in *. apply Reqb_true in H2. subst. reflexivity.
+Qed.
+
+Lemma RA_prod_exps rho k (us : list (expr R)) :
+  RA_prodR (map (denote rho) (map (fun u => Exp u k) us)) =
+  Rpower k (RA_sumR (map (denote rho) us)).
+Proof.
+  induction us as [|a us IH]; cbn [map RA_prodR RA_sumR fold_right denote].
+  - unfold Rpower. rewrite Rmult_0_l. symmetry. apply exp_0.
+  - rewrite Rpower_plus. unfold RA_prodR, RA_sumR in IH. rewrite IH. reflexivity.
+Qed.
+
+Lemma RA_nary_exps k (us : list (expr R)) :
+  us <> [] ->
+  refines (RA_nary false (map (fun u => Exp u k) us)) (RA_nary false [Exp (Add us) k]).
+Proof.
+  intro Hne. apply RA_refines_nary. intro Hw. apply (proj1 (Forall_map _ _ _)) in Hw.
+  assert (Hk : nltb RInst (n0 RInst) k = true).
+  { destruct us as [|u0 us']; [contradiction|]. inversion Hw as [|x y [Hk _] _]. exact Hk. }
+  split; [|split].
+  - constructor; [|constructor]. change (nltb RInst (n0 RInst) k = true /\ wfR (Add us)).
+    split; [exact Hk|]. apply RA_wf_Add. eapply Forall_impl; [|exact Hw].
+    intros a [_ Ha]. exact Ha.
+  - simpl. rewrite app_nil_r. rewrite RA_flat_map_vars_map by reflexivity. apply incl_refl.
+  - intros rho Hd. apply (proj1 (Forall_map _ _ _)) in Hd. split.
+    + constructor; [|constructor]. change (InDomain rho (Add us)). apply RA_dom_Add. exact Hd.
+    + unfold RA_opR. rewrite RA_prod_exps. cbn [map RA_prodR fold_right].
+      change (denote rho (Exp (Add us) k)) with (Rpower k (denote rho (Add us))).
+      rewrite RA_den_Add. ring.
+Qed.
+
+Lemma reduce_product_by_consolidating_exponentials_sound :
+  forall e e' : expr R,
+    reduce_product_by_consolidating_exponentials RInst e = Some e' -> refines e e'.
+Proof.
+  intros e e' H. destruct e; try discriminate.
+  unfold reduce_product_by_consolidating_exponentials, partition_by in H.
+  match type of H with (if ?c then _ else _) = _ => destruct c end; [discriminate|].
+  match type of H with (if ?c then _ else _) = _ => destruct c end; [discriminate|].
+  inversion H; subst; clear H.
+  apply (RA_consolidate false is_Exp Reqb (base_of RInst) (fun us k => Exp (Add us) k) l).
+  - intro k. apply Reqb_true. reflexivity.
+  - intros k vs Hne Hvs. rewrite (RA_group_shape_Exp k vs Hvs) at 1. apply RA_nary_exps.
+    intro Hc. apply map_eq_nil in Hc. contradiction.
+Qed.
+
+(** ** Consolidating logarithms *)
+Lemma RA_group_shape_Log k (vs : list (expr R)) :
+  Forall (fun v => is_Log v = true /\ Reqb (base_of RInst v) k = true) vs ->
+  vs = map (fun u => Log u k) (map inner_of vs).
+Proof.
+  induction 1 as [|v vs [H1 H2] _ IH]; [reflexivity|]. simpl. rewrite <- IH.
+  destruct v; try discriminate. simpl in *. apply Reqb_true in H2. subst. reflexivity.
+Qed.
+
+Lemma RA_sum_logs rho k (us : list (expr R)) :
+  Forall (fun u => InDomain rho u /\ 0 < denote rho u) us ->
+  0 < RA_prodR (map (denote rho) us) /\
+  RA_sumR (map (denote rho) (map (fun u => Log u k) us)) =
+  ln (RA_prodR (map (denote rho) us)) / ln k.
+Proof.
+  induction 1 as [|a us [Hd Hp] _ [IH1 IH2]]; cbn [map RA_prodR RA_sumR fold_right denote].
+  - split; [lra|]. rewrite ln_1. unfold Rdiv. ring.
+  - unfold RA_prodR, RA_sumR in *. split; [apply Rmult_lt_0_compat; assumption|].
+    rewrite IH2, ln_mult by assumption. unfold Rdiv. ring.
+Qed.
+
+Lemma RA_nary_logs k (us : list (expr R)) :
+  us <> [] ->
+  refines (RA_nary true (map (fun u => Log u k) us)) (RA_nary true [Log (Mul us) k]).
+Proof.
+  intro Hne. apply RA_refines_nary. intro Hw. apply (proj1 (Forall_map _ _ _)) in Hw.
+  assert (Hk : nltb RInst (n0 RInst) k = true /\ neqb RInst k (n1 RInst) = false).
+  { destruct us as [|u0 us']; [contradiction|]. inversion Hw as [|x y (Hk1 & Hk2 & _) _]. auto. }
+  split; [|split].
+  - constructor; [|constructor].
+    change (nltb RInst (n0 RInst) k = true /\ neqb RInst k (n1 RInst) = false /\ wfR (Mul us)).
+    split; [tauto|]. split; [tauto|]. apply RA_wf_Mul. eapply Forall_impl; [|exact Hw].
+    intros a (_ & _ & Ha). exact Ha.
+  - simpl. rewrite app_nil_r. rewrite RA_flat_map_vars_map by reflexivity. apply incl_refl.
+  - intros rho Hd. apply (proj1 (Forall_map _ _ _)) in Hd.
+    destruct (RA_sum_logs rho k us Hd) as [Hpos Hsum]. split.
+    + constructor; [|constructor].
+      change (InDomain rho (Mul us) /\ 0 < denote rho (Mul us)). rewrite RA_den_Mul.
+      split; [|exact Hpos]. apply RA_dom_Mul. eapply Forall_impl; [|exact Hd].
+      intros a [Ha _]. exact Ha.
+    + unfold RA_opR. rewrite Hsum. cbn [map RA_sumR fold_right].
+      change (denote rho (Log (Mul us) k)) with (ln (denote rho (Mul us)) / ln k).
+      rewrite RA_den_Mul. ring.
+Qed.
+
+Lemma reduce_sum_by_consolidating_logarithms_sound :
+  forall e e' : expr R,
+    reduce_sum_by_consolidating_logarithms RInst e = Some e' -> refines e e'.
+Proof.
+  intros e e' H. destruct e; try discriminate.
+  unfold reduce_sum_by_consolidating_logarithms, partition_by in H.
+  match type of H with (if ?c then _ else _) = _ => destruct c end; [discriminate|].
+  match type of H with (if ?c then _ else _) = _ => destruct c end; [discriminate|].
+  inversion H; subst; clear H.
+  apply (RA_consolidate true is_Log Reqb (base_of RInst) (fun us k => Log (Mul us) k) l).
+  - intro k. apply Reqb_true. reflexivity.
+  - intros k vs Hne Hvs. rewrite (RA_group_shape_Log k vs Hvs) at 1. apply RA_nary_logs.
+    intro Hc. apply map_eq_nil in Hc. contradiction.
+Qed.
+
+(** ** Consolidating n-th roots *)
+Lemma RA_root_0 n : root n 0 = 0.
+Proof. unfold root. destruct (Rlt_dec 0 0); [lra|]. destruct (Rlt_dec 0 0); [lra|reflexivity]. Qed.
+
+Lemma RA_root_pos n x : 0 < x -> root n x = Rpower x (/ IZR (Zpos n)).
+Proof. intro H. unfold root. destruct (Rlt_dec 0 x); [reflexivity|contradiction]. Qed.
+
+Lemma RA_root_neg n x : x < 0 -> root n x = - Rpower (- x) (/ IZR (Zpos n)).
+Proof.
+  intro H. unfold root. destruct (Rlt_dec 0 x); [lra|].
+  destruct (Rlt_dec x 0); [reflexivity|contradiction].
+Qed.
+
+Lemma RA_root_mult n x y : root n (x * y) = root n x * root n y.
+Proof.
+  destruct (Rtotal_order x 0) as [Hx|[Hx|Hx]]; destruct (Rtotal_order y 0) as [Hy|[Hy|Hy]];
+    try (subst; rewrite ?Rmult_0_l, ?Rmult_0_r, RA_root_0; ring).
+  - assert (Hxy : 0 < x * y) by nra.
+    rewrite (RA_root_pos n _ Hxy), (RA_root_neg n _ Hx), (RA_root_neg n _ Hy).
+    replace (x * y) with ((- x) * (- y)) by ring.
+    rewrite <- Rpower_mult_distr by lra. ring.
+  - assert (Hxy : x * y < 0) by nra.
+    rewrite (RA_root_neg n _ Hxy), (RA_root_neg n _ Hx), (RA_root_pos n _ Hy).
+    replace (- (x * y)) with ((- x) * y) by ring.
+    rewrite <- Rpower_mult_distr by lra. ring.
+  - assert (Hxy : x * y < 0) by nra.
+    rewrite (RA_root_neg n _ Hxy), (RA_root_pos n _ Hx), (RA_root_neg n _ Hy).
+    replace (- (x * y)) with (x * (- y)) by ring.
+    rewrite <- Rpower_mult_distr by lra. ring.
+  - assert (Hxy : 0 < x * y) by nra.
+    rewrite (RA_root_pos n _ Hxy), (RA_root_pos n _ Hx), (RA_root_pos n _ Hy).
+    rewrite <- Rpower_mult_distr by lra. reflexivity.
+Qed.
+
+Lemma RA_root_one n : root n 1 = 1.
+Proof.
+  rewrite RA_root_pos by lra. unfold Rpower. rewrite ln_1, Rmult_0_r. apply exp_0.
+Qed.
+
+Lemma RA_root_1 x : root 1 x = x.
+Proof.
+  destruct (Rtotal_order x 0) as [Hx|[Hx|Hx]].
+  - rewrite RA_root_neg by assumption. rewrite Rinv_1, Rpower_1 by lra. ring.
+  - subst. apply RA_root_0.
+  - rewrite RA_root_pos by lra. rewrite Rinv_1. apply Rpower_1. lra.
+Qed.
+
+Lemma RA_root_pos_pos n x : 0 < x -> 0 < root n x.
+Proof. intro H. rewrite RA_root_pos by assumption. unfold Rpower. apply exp_pos. Qed.
+
+Lemma RA_root_neq_0 n x : x <> 0 -> root n x <> 0.
+Proof.
+  intro H. destruct (Rtotal_order x 0) as [Hx|[Hx|Hx]]; [|contradiction|].
+  - rewrite RA_root_neg by assumption.
+    assert (0 < Rpower (- x) (/ IZR (Z.pos n))) by (unfold Rpower; apply exp_pos). lra.
+  - pose proof (RA_root_pos_pos n x Hx). lra.
+Qed.
+
+Definition RA_rootdom (n : positive) (x : R) : Prop :=
+  n = 1%positive \/ (x <> 0 /\ (Z.even (Zpos n) = true -> 0 < x)).
+
+Lemma RA_rootdom_mult n x y : RA_rootdom n x -> RA_rootdom n y -> RA_rootdom n (x * y).
+Proof.
+  intros [H1|[H1 H2]] [H3|[H3 H4]]; try (left; assumption). right. split.
+  - apply Rmult_integral_contrapositive_currified; assumption.
+  - intro He. apply Rmult_lt_0_compat; auto.
+Qed.
+
+Lemma RA_group_shape_NthRoot k (vs : list (expr R)) :
+  Forall (fun v => is_NthRoot v = true /\ Pos.eqb (pos_of_nth v) k = true) vs ->
+  vs = map (fun u => NthRoot u k) (map inner_of vs).
+Proof.
+  induction 1 as [|v vs [H1 H2] _ IH]; [reflexivity|]. simpl. rewrite <- IH.
+  destruct v; try discriminate. simpl in *. apply Pos.eqb_eq in H2. subst. reflexivity.
+Qed.
+
+Lemma RA_prod_roots rho n (us : list (expr R)) :
+  RA_prodR (map (denote rho) (map (fun u => NthRoot u n) us)) =
+  root n (RA_prodR (map (denote rho) us)).
+Proof.
+  induction us as [|a us IH]; cbn [map RA_prodR fold_right denote].
+  - symmetry. apply RA_root_one.
+  - rewrite RA_root_mult. unfold RA_prodR in IH. rewrite IH. reflexivity.
+Qed.
+
+Lemma RA_rootdom_prod rho n (us : list (expr R)) :
+  Forall (fun u => InDomain rho u /\ RA_rootdom n (denote rho u)) us ->
+  RA_rootdom n (RA_prodR (map (denote rho) us)).
+Proof.
+  induction 1 as [|a us [Hd Hr] _ IH]; cbn [map RA_prodR fold_right].
+  - right. split; [lra|intros _; lra].
+  - apply RA_rootdom_mult; assumption.
+Qed.
+
+Lemma RA_nary_nthroots n (us : list (expr R)) :
+  refines (RA_nary false (map (fun u => NthRoot u n) us)) (RA_nary false [NthRoot (Mul us) n]).
+Proof.
+  apply RA_refines_nary. intro Hw. apply (proj1 (Forall_map _ _ _)) in Hw.
+  split; [|split].
+  - constructor; [|constructor]. change (wfR (Mul us)). apply RA_wf_Mul. exact Hw.
+  - simpl. rewrite app_nil_r. rewrite RA_flat_map_vars_map by reflexivity. apply incl_refl.
+  - intros rho Hd. apply (proj1 (Forall_map _ _ _)) in Hd.
+    change (Forall (fun u => InDomain rho u /\ RA_rootdom n (denote rho u)) us) in Hd. split.
+    + constructor; [|constructor].
+      change (InDomain rho (Mul us) /\ RA_rootdom n (denote rho (Mul us))).
+      rewrite RA_den_Mul. split; [|apply RA_rootdom_prod; exact Hd].
+      apply RA_dom_Mul. eapply Forall_impl; [|exact Hd]. intros a [Ha _]. exact Ha.
+    + unfold RA_opR. rewrite RA_prod_roots. cbn [map RA_prodR fold_right].
+      change (denote rho (NthRoot (Mul us) n)) with (root n (denote rho (Mul us))).
+      rewrite RA_den_Mul. ring.
+Qed.
+
+Lemma reduce_product_by_consolidating_nth_roots_sound :
+  forall e e' : expr R, reduce_product_by_consolidating_nth_roots e = Some e' -> refines e e'.
+Proof.
+  intros e e' H. destruct e; try discriminate.
+  unfold reduce_product_by_consolidating_nth_roots, partition_by in H.
+  match type of H with (if ?c then _ else _) = _ => destruct c end; [discriminate|].
+  match type of H with (if ?c then _ else _) = _ => destruct c end; [discriminate|].
+  inversion H; subst; clear H.
+  apply (RA_consolidate false is_NthRoot Pos.eqb pos_of_nth (fun us k => NthRoot (Mul us) k) l).
+  - apply Pos.eqb_refl.
+  - intros k vs _ Hvs. rewrite (RA_group_shape_NthRoot k vs Hvs) at 1. apply RA_nary_nthroots.
+Qed.
+
+(** ** Summary: every rule of the classes Add, Minus, Negation, Multiply, Divide, Reciprocal,
+       Cosine, Sine is sound *)
+Theorem rules_sound_A : forall nm f (e e' : expr R),
+  In (nm, f) (reducers_Add RInst ++ reducers_Minus ++ reducers_Negation ++
+              reducers_Multiply RInst ++ reducers_Divide ++ reducers_Reciprocal ++
+              reducers_Cosine ++ reducers_Sine) ->
+  f e = Some e' -> refines e e'.
+Proof.
+  intros nm f e e' Hin Hf.
+  unfold reducers_Add, reducers_Minus, reducers_Negation, reducers_Multiply, reducers_Divide,
+    reducers_Reciprocal, reducers_Cosine, reducers_Sine in Hin.
+  cbn [app In] in Hin.
+  repeat (destruct Hin as [Hin|Hin];
+          [inversion Hin; subst; clear Hin; revert Hf;
+           first [ apply reduce_by_flattening_nested_sums_sound
+                 | apply reduce_sum_by_eliminating_zeros_sound
+                 | apply reduce_sum_by_consolidating_logarithms_sound
+                 | apply reduce_sum_by_consolidating_constants_sound
+                 | apply reduce_minus_to_sum_with_negation_sound
+                 | apply reduce_negation_of_negation_sound
+                 | apply reduce_negation_of_sum_sound
+                 | apply reduce_by_flattening_nested_products_sound
+                 | apply reduce_product_when_multiplying_by_zero_sound
+                 | apply reduce_product_by_eliminating_ones_sound
+                 | apply reduce_product_by_eliminating_negations_sound
+                 | apply reduce_product_by_consolidating_nth_powers_sound
+                 | apply reduce_product_by_consolidating_nth_roots_sound
+                 | apply reduce_product_by_consolidating_exponentials_sound
+                 | apply reduce_product_by_consolidating_constants_sound
+                 | apply reduce_divide_to_multiplying_with_reciprocal_sound
+                 | apply reduce_reciprocal_of_reciprocal_sound
+                 | apply reduce_reciprocal_of_negation_sound
+                 | apply reduce_reciprocal_of_product_sound
+                 | apply reduce_cosine_of_negation_sound
+                 | apply reduce_sine_of_negation_sound ]|]).
+  contradiction.
+Qed.
+
+(** The same, read against [all_rules]: the rules of these eight classes, as members of
+    [all_rules RInst], selected by the class of the reducer list they come from. *)
+Lemma RA_in_all_rules nm f :
+  In (nm, f) (reducers_Add RInst ++ reducers_Minus ++ reducers_Negation ++
+              reducers_Multiply RInst ++ reducers_Divide ++ reducers_Reciprocal ++
+              reducers_Cosine ++ reducers_Sine) ->
+  In (nm, f) (all_rules RInst).
+Proof.
+  unfold all_rules. rewrite !in_app_iff. tauto.
+Qed.
+
+(** ** Non-vacuity: the rules fire on non-trivial trees that are well formed and in domain *)
+Example RA_ex_nth_powers :
+  let e := Mul [NthPow (Var 1%positive) 2; Var 2%positive; NthPow (Var 3%positive) 2] in
+  let e' := Mul [Var 2%positive; NthPow (Mul [Var 1%positive; Var 3%positive]) 2] in
+  reduce_product_by_consolidating_nth_powers e = Some e' /\ wfR e /\
+  (forall rho, InDomain rho e) /\ refines e e'.
+Proof.
+  intros e e'. assert (H : reduce_product_by_consolidating_nth_powers e = Some e') by reflexivity.
+  split; [exact H|]. split; [simpl; tauto|]. split; [intro rho; simpl; tauto|].
+  apply reduce_product_by_consolidating_nth_powers_sound. exact H.
+Qed.
+
+Example RA_ex_logarithms :
+  let e := Add [Log (Var 1%positive) 2; Var 2%positive; Log (Var 3%positive) 2] in
+  let e' := Add [Var 2%positive; Log (Mul [Var 1%positive; Var 3%positive]) 2] in
+  reduce_sum_by_consolidating_logarithms RInst e = Some e' /\ wfR e /\
+  InDomain (fun _ => 1) e /\ refines e e'.
+Proof.
+  intros e e'.
+  assert (H : reduce_sum_by_consolidating_logarithms RInst e = Some e').
+  { unfold e, e', reduce_sum_by_consolidating_logarithms, partition_by, group_by_key.
+    cbn [filter is_Log negb List.length Nat.leb fold_left group_insert base_of neqb RInst].
+    rewrite (proj2 (Reqb_true 2 2) eq_refl). reflexivity. }
+  split; [exact H|]. split.
+  - simpl. repeat split; try (apply Rltb_true; lra); apply Reqb_false; lra.
+  - split; [simpl; repeat split; lra|].
+    apply reduce_sum_by_consolidating_logarithms_sound. exact H.
+Qed.
+
+Example RA_ex_in_list :
+  In ("_reduce_product_by_consolidating_nth_roots"%string,
+      reduce_product_by_consolidating_nth_roots (T := R))
+     (reducers_Add RInst ++ reducers_Minus ++ reducers_Negation ++
+      reducers_Multiply RInst ++ reducers_Divide ++ reducers_Reciprocal ++
+      reducers_Cosine ++ reducers_Sine).
+Proof. simpl. tauto. Qed.
+
+Print Assumptions rules_sound_A.
